@@ -6,7 +6,7 @@ from models import chart_oracles as co
 
 PID = 'C01'
 SCHEDULE_DEPENDENT = False
-RULE = ('seeded generation of state trees (2-14 states, depth <= 8, chain-heavy/bushy/random shapes, initial '
+RULE = ('seeded generation of state trees (2-18 states, depth <= 8 in the general strata and <= 16 in the very-deep stratum, chain-heavy/bushy/random shapes, initial '
         'transitions to any proper descendant incl. chains that skip levels), reaction tables, start state and '
         'event histories of 5-40 events; every host (plain, instrumented, queued, active object, factory) and '
         'build (hand-written closures with/without spy_on, template, factory, to_code) as swarm dimensions; the '
@@ -18,8 +18,8 @@ ASSUMPTIONS = ['no schedule dimension: the dispatch order is fixed by the histor
 PROBES = []
 
 PLAN = {
-  'quick': {'strata': {'general': 5000, 'deep-init': 3000}, 'wall_s': 90, 'chunk': 100, 'min_conclusive': 1000},
-  'thorough': {'strata': {'general': 120000, 'deep-init': 80000}, 'wall_s': 900, 'chunk': 250, 'min_conclusive': 10000},
+  'quick': {'strata': {'general': 4000, 'deep-init': 2500, 'very-deep': 2500}, 'wall_s': 90, 'chunk': 100, 'min_conclusive': 1000},
+  'thorough': {'strata': {'general': 100000, 'deep-init': 70000, 'very-deep': 70000}, 'wall_s': 900, 'chunk': 250, 'min_conclusive': 10000},
 }
 
 ORACLES = [lambda run, res: co.check_transitions(run, res, want=('C01',))]
@@ -29,6 +29,10 @@ def generate(seed, stratum, tier):
   rng = random.Random(seed)
   if stratum == 'deep-init':
     kw = {'shape': 'chain', 'nstates': rng.randrange(5, 15), 'deep': True, 'p_react': 0.6, 'decline_bias': 0.05}
+  elif stratum == 'very-deep':
+    # nesting up to 16: room for two or three chained initial transitions of 4+ levels each
+    kw = {'shape': 'chain', 'nstates': rng.randrange(10, 19), 'max_depth': 16, 'deep': rng.random() < 0.5,
+          'p_init': 0.6, 'p_react': 0.5, 'decline_bias': 0.05, 'nsignals': rng.randrange(2, 5)}
   else:
     kw = {}
   return cc.gen_chart_scenario(rng, spec_kw=kw)
